@@ -3209,6 +3209,7 @@ impl Block {
             self.transactions.len()
         );
         let mut new_slips_map = std::collections::HashMap::new();
+        let genesis_period = configs.get_consensus_config().unwrap().genesis_period;
         let transactions_valid = self.transactions.iter().all(|tx: &Transaction| -> bool {
             // SPV transactions are placeholders of lite blocks: they carry no signature
             // check and cannot be part of a full block
@@ -3222,6 +3223,18 @@ impl Block {
                 for input in tx.from.iter() {
                     if input.amount == 0 || input.slip_type == SlipType::Bound {
                         continue;
+                    }
+                    // an output of a block that has left the retention window has been
+                    // rebroadcast or collected by the chain and cannot be spent any more
+                    if validate_against_utxo
+                        && tx.transaction_type != TransactionType::ATR
+                        && input.block_id.saturating_add(genesis_period) < self.id
+                    {
+                        error!(
+                            "ERROR 579130: input from block {} is outside the retention window of block {}",
+                            input.block_id, self.id
+                        );
+                        return false;
                     }
                     let utxo_key = input.get_utxoset_key();
 
